@@ -104,6 +104,9 @@ func (e *EventEmitter) handleSubscriber(ctx context.Context, sub event.Subscript
 	cevent := make(chan Event, 16)
 	condProcess := sync.NewCond(&sync.Mutex{})
 	queue := list.New()
+	// sending is true while the second goroutine holds an event it removed from
+	// the queue but has not yet pushed to the channel; protected by condProcess.L
+	sending := false
 	wg := sync.WaitGroup{}
 
 	wg.Add(1)
@@ -125,8 +128,9 @@ func (e *EventEmitter) handleSubscriber(ctx context.Context, sub event.Subscript
 			}
 
 			condProcess.L.Lock()
-			if queue.Len() == 0 {
-				// try to push event to the queue
+			if queue.Len() == 0 && !sending {
+				// try to push event to the channel, only if no older event
+				// is still waiting to be sent
 				select {
 				case cevent <- e:
 					condProcess.L.Unlock()
@@ -154,6 +158,7 @@ func (e *EventEmitter) handleSubscriber(ctx context.Context, sub event.Subscript
 			}
 
 			e := queue.Remove(queue.Front())
+			sending = true
 
 			// Unlock cond mutex while sending the event
 			condProcess.L.Unlock()
@@ -165,6 +170,7 @@ func (e *EventEmitter) handleSubscriber(ctx context.Context, sub event.Subscript
 			}
 
 			condProcess.L.Lock()
+			sending = false
 		}
 		condProcess.L.Unlock()
 
